@@ -140,6 +140,8 @@ def obligations(tier: str):
 
     add("single_tracker", "single_tracker_singly", n=5 if T else 4, table=4 if T else 3)
     add("single_tracker", "single_tracker_batches", n=4 if T else 3, batch=3 if T else 2)
+    add("single_tracker", "single_tracker_infinite_fitness", n=3 if not T else 4, table="inf")
+    add("multi_tracker", "multi_tracker_1obj_infinite_fitness", objectives=1, n=3, table="inf")
     add("multi_tracker", "multi_tracker_2obj", objectives=2, n=3, table=3 if T else 2)
     add("multi_tracker", "multi_tracker_1obj", objectives=1, n=5 if T else 4)
     add("multi_tracker", "multi_tracker_bool_minimize", objectives=2, n=3, bool_minimize=True, table=3 if T else 2)
